@@ -311,7 +311,7 @@ func (f *Frame) loopMods(li *loopInfo) (map[string]bool, bool, map[string][]ssa.
 			case ssa.CallInstruction:
 				for _, n := range f.c.trackedCalls() {
 					cc := x.Common()
-					if assertMatches(n, cc, cc.StaticCallee()) {
+					if f.trackedMatches(n, x, cc, cc.StaticCallee()) {
 						k := callsKey(n).Name
 						mod[k] = true
 						unknown[k] = true
